@@ -1772,7 +1772,16 @@ fn refv_lines(rng: &mut Rng, tier: Tier) -> Vec<String> {
             1 => vec![7u8],
             _ => (1..=9u8).collect(),
         };
-        let c = Cfg { field: FieldId::F64, hash: HashId::Rp64_256, opts: OptSpec::new(q, b, g, ext, f, r), seed: 7000 + k as u64, desc: Arc::new(d.clone()), meta };
+        // the instantiation of the verifier: about half the configurations the 64-bit field with Rp64_256, the others
+        // the 64-bit field with RpJive64_256 and the 62-bit field with Rp62_248 (both with and without aux segment)
+        let (field, hash) = match k % 5 {
+            1 => (FieldId::F64, HashId::RpJive64_256),
+            3 => (FieldId::F62, HashId::Rp62_248),
+            0 if k > 0 => (FieldId::F62, HashId::Rp62_248),
+            _ => (FieldId::F64, HashId::Rp64_256),
+        };
+        let ext = if field.supports_ext(ext) { ext } else { 1 };
+        let c = Cfg { field, hash, opts: OptSpec::new(q, b, g, ext, f, r), seed: 7000 + k as u64, desc: Arc::new(d.clone()), meta };
         let head = format!("refv {} {} {} {} {}", c.field.name(), c.hash.name(), c.opts.to_text(), c.seed, c.desc.to_line());
         let base = match make_base(&c) {
             Ok(x) => x,
@@ -1798,7 +1807,11 @@ fn refv_lines(rng: &mut Rng, tier: Tier) -> Vec<String> {
         out.push(format!("{} {} {} honest {}", head, os, pubs, hx));
         out.push(format!("{} mc:0 {} honest {}", head, pubs, hx));
         // policies that refuse it / just accept it
-        let level = base.proof.security_level::<Rp64_256>(true);
+        let level = match c.hash {
+            HashId::RpJive64_256 => base.proof.security_level::<RpJive64_256>(true),
+            HashId::Rp62_248 => base.proof.security_level::<Rp62_248>(true),
+            _ => base.proof.security_level::<Rp64_256>(true),
+        };
         out.push(format!("{} mc:{} {} policy {}", head, level, pubs, hx));
         out.push(format!("{} mc:{} {} policy {}", head, level + 1, pubs, hx));
         let mut other = c.opts;
